@@ -28,6 +28,9 @@
 #include <kernel/lafem/sparse_vector.hpp>
 #include <kernel/lafem/sparse_matrix_banded.hpp>
 #include <control/checkpoint_control.hpp>
+#include <kernel/lafem/vector_mirror.hpp>
+#include <kernel/global/gate.hpp>
+#include <kernel/global/vector.hpp>
 
 #include <map>
 
@@ -65,7 +68,7 @@ namespace
   inline double val(int rank, int obj, Index i) { return double(rank * 1000000 + obj * 10000) + double(i) * 0.125 + 0.5; }
 
   struct ObjRec { int kind; std::string id; Snapshot ref; bool removed = false; };
-  struct RankPlan { std::vector<ObjRec> objs; std::vector<ObjRec> objs2; bool second = false; std::vector<char> raw; };
+  struct RankPlan { std::vector<ObjRec> objs; std::vector<ObjRec> objs2; bool second = false; std::vector<char> raw; void* gate = nullptr; };
   struct Shared
   {
     int n = 1;
@@ -133,8 +136,33 @@ namespace
     return s;
   }
 
+  // distributed vectors: a Global::Vector over a hand-made gate (a few DOFs shared by all ranks, one with the next and one
+  // with the previous rank, the rest private). Its checkpoint is the checkpoint of the local vector - whatever the local
+  // values are, consistent over the sharing ranks or not, they have to come back bit by bit
+  typedef Global::Gate<DenseVector<double, Index>, VectorMirror<double, Index>> GGate;
+  typedef Global::Vector<DenseVector<double, Index>, VectorMirror<double, Index>> GVec;
+  constexpr Index G_SHARED = 3, G_LOCAL = G_SHARED + 2 + 4;
+  void build_gate(GGate& gate, const Dist::Comm& comm)
+  {
+    const int n = comm.size(), r = comm.rank();
+    gate.set_comm(&comm);
+    for(int q = 0; q < n; ++q)
+    {
+      if(q == r) continue;
+      std::vector<Index> ix;
+      for(Index i = 0; i < G_SHARED; ++i) ix.push_back(i);
+      // the ring DOFs: mine towards the next rank is the previous rank's DOF towards me and vice versa
+      if(n > 2) { if(q == (r + 1) % n) ix.push_back(G_SHARED); if(q == (r + n - 1) % n) ix.push_back(G_SHARED + 1); }
+      VectorMirror<double, Index> mir(G_LOCAL, Index(ix.size()));
+      for(size_t i = 0; i < ix.size(); ++i) mir.indices()[i] = ix[i];
+      gate.push(q, std::move(mir));
+    }
+    gate.compile(DenseVector<double, Index>(G_LOCAL));
+  }
+
   struct Objects
   {
+    std::vector<std::unique_ptr<GVec>> gvec;
     std::vector<std::unique_ptr<StokesMat>> stokes_m;
     std::vector<std::unique_ptr<StokesVec>> stokes_v;
     std::vector<std::unique_ptr<SadMat>> sad;
@@ -238,6 +266,8 @@ namespace
               DenseVector<double, Index> vv(Index(offs.size()) * r1); for(Index i = 0; i < vv.size(); ++i) vv(i, val(rank, o, i));
               O.band.emplace_back(new SparseMatrixBanded<double, Index>(r1, r1, vv, vo)); auto& m = *O.band.back();
               rec.ref = snap(m); if(reg) cp.add_object(String(rec.id), m); } break;
+    case 18: { GGate* gate = static_cast<GGate*>(SH->ranks[size_t(rank)].gate); O.gvec.emplace_back(new GVec(gate, DenseVector<double, Index>(G_LOCAL))); auto& v = *O.gvec.back();
+              for(Index i = 0; i < G_LOCAL; ++i) v.local()(i, val(rank, o, i)); rec.ref = snap(v.local()); if(reg) cp.add_object(String(rec.id), v); } break;
     case 4: { O.bcsr.emplace_back(new SparseMatrixBCSR<double, Index, 2, 2>(make_graph(g, 1 + g.idx(8), 1 + g.idx(8)))); auto& m = *O.bcsr.back(); if(m.used_elements() > 0) { auto* p = m.template val<Perspective::pod>(); for(Index i = 0; i < m.template used_elements<Perspective::pod>(); ++i) p[i] = val(rank, o, i); } rec.ref = snap(m); if(reg) cp.add_object(String(rec.id), m); } break;
     }
   }
@@ -275,6 +305,15 @@ namespace
     case 17: { StokesVec t; restore_and_check(cp, rec, t, rank, how); } break;
     case 14: { SparseVector<double, Index> t(pre); restore_and_check(cp, rec, t, rank, how); } break;
     case 15: { SparseMatrixBanded<double, Index> t; restore_and_check(cp, rec, t, rank, how); } break;
+    case 18:
+      {
+        GGate* gate = static_cast<GGate*>(SH->ranks[size_t(rank)].gate);
+        GVec t(gate, DenseVector<double, Index>(pre == 0 ? G_LOCAL : pre));
+        cp.restore_object(String(rec.id), t, false);
+        if(!(snap(t.local()) == rec.ref)) sim::fail("CHECKPOINT_MISMATCH", std::string("rank ") + std::to_string(rank) + ": distributed vector '" + rec.id + "' restored " + how + " differs from what was checkpointed");
+        ++SH->restored;
+      }
+      break;
     }
   }
 
@@ -297,12 +336,14 @@ namespace
     Dist::Comm comm = Dist::Comm::world();
     Gen g(seed * 131 + uint64_t(rank));
     RankPlan& plan = SH->ranks[size_t(rank)];
+    GGate gate_a; build_gate(gate_a, comm);
+    SH->ranks[size_t(rank)].gate = &gate_a;
     Objects O;
     Control::CheckpointControl cp(comm, LAFEM::SerialConfig(false, false));
     const int k = int(g.idx(Index(max_objs) + 1));
     for(int o = 0; o < k; ++o)
     {
-      ObjRec rec; rec.kind = int(g.idx(18));
+      ObjRec rec; rec.kind = int(g.idx(19));
       do { rec.id = make_id(g, o, plan.objs); } while(std::any_of(plan.objs.begin(), plan.objs.end(), [&](const ObjRec& r) { return r.id == rec.id; }));
       make_object(O, cp, rank, o, rec, g, true);
       plan.objs.push_back(rec);
@@ -335,7 +376,7 @@ namespace
       const int extra = int(g.idx(3));
       for(int e = 0; e < extra; ++e, ++o2)
       {
-        ObjRec rec; rec.kind = int(g.idx(18));
+        ObjRec rec; rec.kind = int(g.idx(19));
         do { rec.id = make_id(g, o2 % 20, plan.objs2); } while(std::any_of(plan.objs.begin(), plan.objs.end(), [&](const ObjRec& r) { return r.id == rec.id; }) || std::any_of(plan.objs2.begin(), plan.objs2.end(), [&](const ObjRec& r) { return r.id == rec.id; }));
         make_object(O, cp, rank, o2, rec, g, true);
         plan.objs2.push_back(rec);
@@ -367,6 +408,8 @@ namespace
   {
     Dist::Comm comm = Dist::Comm::world();
     Gen g(seed * 977 + uint64_t(rank) * 13 + 5);
+    GGate gate_b; build_gate(gate_b, comm);
+    SH->ranks[size_t(rank)].gate = &gate_b;
     const RankPlan& plan = SH->ranks[size_t(rank)];
     Control::CheckpointControl cp(comm, LAFEM::SerialConfig(false, false));
     cp.load(String("job.cp"));
